@@ -626,7 +626,7 @@ func scanDirected(c *vc.Ctx, h *Host, eng string, n int) {
 	defer conn.Close()
 	pop := &scanPop{ns: ns, n: n, keys: map[string][]string{}}
 	for _, typ := range scanTypes {
-		for _, nm := range []string{"a", "b", "c"} {
+		for _, nm := range []string{"a", "b", "b\x00", "c"} {
 			args := writeCmdFor(typ, ns+":"+scanTable+"min:"+nm, nm)
 			rp, err := conn.DoS(args...)
 			if err != nil || rp.IsErr() {
@@ -643,6 +643,25 @@ func scanDirected(c *vc.Ctx, h *Host, eng string, n int) {
 				scanKeyChainIn(c, conn, eng, pop, scanTable+"min", "SCAN", typ, reverse, 1, "")
 			}
 			scanKeyChainIn(c, conn, eng, pop, scanTable+"min", "ADVSCAN", typ, reverse, 1, "")
+		}
+	}
+	// the same four names as fields / members of one small collection
+	coll := ns + ":" + scanTable + "min:mincoll"
+	el := []string{"a", "b", "b\x00", "c"}
+	cpop := &scanPop{ns: ns, n: n}
+	for _, nm := range el {
+		for _, args := range [][]string{{"HSET", coll, nm, "v"}, {"SADD", coll, nm}, {"ZADD", coll, "1", nm}} {
+			rp, err := conn.DoS(args...)
+			if err != nil || rp.IsErr() {
+				c.Inconclusive(fmt.Sprintf("proto: populate %v: %v %s", args, err, rp.Short(80)))
+				return
+			}
+			cpop.populate = append(cpop.populate, qargv(B(args...)))
+		}
+	}
+	for _, cmd := range []string{"HSCAN", "SSCAN", "ZSCAN"} {
+		for _, reverse := range []bool{false, true} {
+			scanCollChain(c, conn, eng, cpop, cmd, coll, el, reverse, 1, "")
 		}
 	}
 }
